@@ -1617,6 +1617,12 @@ def check_C18(run):
                 entry = c_rel + "/" + name
                 expected[entry] = (d, ddir)
                 pre = tb.get(entry)
+                if pre is None:
+                    # (the combine directory may live behind a symbolic link: look there)
+                    reloc_b = st.before.get("relocated", {})
+                    bh = next((r_ for r_ in reloc_b if entry.startswith(r_ + "/")), None)
+                    if bh is not None:
+                        pre = reloc_b[bh].get(entry[len(bh) + 1:])
                 if pre is not None and pre[0] != "l" and conflict is None:
                     conflict = (entry, d)
             if conflict is not None:
@@ -1634,8 +1640,23 @@ def check_C18(run):
                                    {"task": c, "internal": list(inv.internal)[:3] if inv.internal else None,
                                     "err": inv.err.decode("utf-8", "replace")[-300:]}, i))
                 continue
+            reloc_a = st.after.get("relocated", {})
             for entry, (d, ddir) in sorted(expected.items()):
                 got = ta.get(entry)
+                behind = next((r_ for r_ in reloc_a if entry.startswith(r_ + "/")), None)
+                if got is None and behind is not None:
+                    # the combine directory lives behind a symbolic link (moved to another volume by hand): the entry
+                    # is judged physically - it must be a link that leads somewhere
+                    got2 = reloc_a[behind].get(entry[len(behind) + 1:])
+                    if got2 is None:
+                        V.append(Violation("C18", "combine-entry-missing", {"entry": entry, "dep": d, "behind_link": behind}, i))
+                    elif got2[0] != "l":
+                        V.append(Violation("C18", "combine-entry-is-not-a-link", {"entry": entry, "dep": d}, i))
+                    elif entry in st.after.get("dangling", []):
+                        V.append(Violation("C18", "combine-entry-dangles (combine directory behind a symbolic link)",
+                                           {"entry": entry, "dep": d, "target": got2[1]}, i))
+                    reach["combine_directory_behind_symlink"] = reach.get("combine_directory_behind_symlink", 0) + 1
+                    continue
                 if got is None:
                     V.append(Violation("C18", "combine-entry-missing", {"entry": entry, "dep": d}, i))
                 elif got[0] != "l":
